@@ -1300,18 +1300,25 @@ func handleState(fr *FrameHeader, strm *Stream) {
 		strm.SetState(StreamStateClosed)
 	}
 
+	// END_STREAM is a flag of HEADERS and DATA. On any other type of frame the
+	// same bit means nothing and has to be ignored (RFC 7540 4.1): a
+	// WINDOW_UPDATE or PRIORITY that happens to have it set does not end the
+	// request.
+	endStream := fr.Flags().Has(FlagEndStream) &&
+		(fr.Type() == FrameHeaders || fr.Type() == FrameData)
+
 	switch strm.State() {
 	case StreamStateIdle:
 		if fr.Type() == FrameHeaders {
 			strm.SetState(StreamStateOpen)
-			if fr.Flags().Has(FlagEndStream) {
+			if endStream {
 				strm.SetState(StreamStateHalfClosed)
 			}
 		} // TODO: else push promise ...
 	case StreamStateReserved:
 		// TODO: ...
 	case StreamStateOpen:
-		if fr.Flags().Has(FlagEndStream) {
+		if endStream {
 			strm.SetState(StreamStateHalfClosed)
 		} else if fr.Type() == FrameResetStream {
 			strm.SetState(StreamStateClosed)
